@@ -5,7 +5,7 @@ import z3
 
 from .values import PathDead, NotPure, as_const_bool, Unsupported
 
-BRANCH_TIMEOUT_MS = 3000
+BRANCH_TIMEOUT_MS = int(__import__("os").environ.get("VERIF_BRANCH_TIMEOUT_MS", "700"))
 
 
 class Obligation(object):
